@@ -129,6 +129,16 @@ theorem resume_books_only_the_remaining_points :
     ((activateBatch g1 [([], [1])]).1.stored.all fun k => decide (k ∈ (activateBatch gc [([], [1])]).1.stored)) = true := by
   refine ⟨by decide +kernel, by decide +kernel, by decide +kernel, by decide +kernel, by decide +kernel, by decide +kernel⟩
 
+
+/-- **F17 witness** (open finding): the running cost average of `call_model` is updated when the model call returns — before the
+    data are stored. An interruption in between saves the updated average without the data; on resume the same evaluations are
+    made and averaged again. With an earlier average 1 and reported costs 4, 7: the uninterrupted run ends with average 4, the
+    interrupted-and-resumed one with 5. -/
+theorem interrupted_call_is_averaged_twice :
+    (updAvg (fun _ => some 1) [] [4, 7]) [] = some 4 ∧
+    (updAvg (updAvg (fun _ => some 1) [] [4, 7]) [] [4, 7]) [] = some 5 := by
+  constructor <;> decide +kernel
+
 /-! non-vacuity -/
 example : (microSteps [([0], [0]), ([1], [0])]).length = 6 := by decide
 
